@@ -344,7 +344,8 @@ where
                             }))),
                         }))));
                     }
-                    if let Some((_, default)) = defaults.iter().flatten().find(|(name, _)| {
+                    // a key written twice in the default object: JavaScript keeps the last one
+                    if let Some((_, default)) = defaults.iter().flatten().rev().find(|(name, _)| {
                         name.eq_ignore_span(&prop_name)
                             || if let (
                                 PropName::Ident(IdentName { sym: a, .. }),
